@@ -306,6 +306,12 @@ def defaults_rule(run, model, rule="C05.defaults"):
         dp = resolver.params[1] if len(resolver.params) > 1 else None
         t = strip_sites(ck.flow.term(b[dp], ck.resolver["node"])) if dp in b else None
         okt = t is not None and t[0] == "call" and fi_of_term(model, t[1]) is table_fi
+        if okt:
+            # ... computed from the signature of *this* function, taken afresh: a signature looked up in a cache keyed by
+            # the code object (or any other key functions can share) hands one function's defaults to another
+            sargs = [v_ for _, v_ in t[3]] + list(t[2])
+            fresh_sig = len(sargs) == 1 and sargs[0][0] == "call" and sargs[0][1] == ("attr", ("module", "inspect"), "signature") and (list(sargs[0][2]) + [v_ for _, v_ in sargs[0][3]]) in ([("closure", ("param", ck.wr.factory.params[0]))], [("param", ck.wr.factory.params[0])])
+            run.check(fresh_sig, rule, ck.fi.qual + ":defaults-signature", "the defaults are read off `inspect.signature(func)` of the decorated function itself", "the signature whose defaults are handed to the contracts is %s, not `inspect.signature(func)` taken afresh for the decorated function: with a cache keyed by something functions can share (the code object of a factory's inner `def`), one function's contracts see another function's default values" % (show(sargs[0], 70) if sargs else "nothing"), ck.loc(ck.resolver["node"]), None, first_line(ck.resolver["node"].stmt))
         run.check(okt, rule, ck.fi.qual + ":defaults-table", "the resolver gets the table of the function's default values on every call", "the resolver gets %s as the table of defaults, not the table computed from the function's signature: for some calls (surplus positionals or extra keywords while a named parameter keeps its default) the contracts do not see the default the body receives" % (show(t, 80) if t is not None else "nothing"), ck.loc(ck.resolver["node"]), None, first_line(ck.resolver["node"].stmt))
 
 
